@@ -180,7 +180,7 @@ def check(prog: Program, tier: str) -> Result:
                          "import normalisation must hold for ANY layout of the imported packages: a memoised lookup answers for the layout of an earlier call "
                          "(another working directory, an edited or moved module), so star-imports are expanded to names the module no longer exports")
     _r18_18(prog, res)
-    res.floors.update({"R18.1": 6, "R18.2": 2, "R18.4": 1, "R18.5": 1, "R18.10": 3, "R18.11": 2, "R18.12": 1, "R18.13": 3, "R18.14": 2, "R18.15": 3, "R18.16": 1, "R18.17": 2, "R18.18": 1})
+    res.floors.update({"R18.1": 6, "R18.2": 2, "R18.4": 1, "R18.5": 1, "R18.10": 3, "R18.11": 2, "R18.12": 1, "R18.13": 3, "R18.14": 2, "R18.15": 4, "R18.16": 1, "R18.17": 2, "R18.18": 1})
     res.analysed["importfrom_constructions"] = n
     return res
 
@@ -334,6 +334,25 @@ def _r18_15(prog: Program, res: Result) -> None:
         res.decide(not lost, "R18.15", pred.loc(), pred.fq, f"{pred.node.name}() # gives up where reading the module fails ({len(wanted_exc)} exception class(es))",
                    f"{sorted(wanted_exc)} all answered with `cannot tell`" if not lost else
                    f"trace_origin gives up when reading the module raises {lost}, {pred.node.name}() does not: a star import from a module that cannot be read or parsed is removed")
+        # ... and WHETHER reading fails is decided by how the file is read: the two must open the module the same way (same opener,
+        # same encoding).  A module in a declared non-UTF-8 encoding cannot be read as utf-8 (trace_origin gives up) but can be read
+        # with the cookie-aware opener (the predicate says `can tell`): the star import is removed.
+        def readers(scope) -> Set[str]:
+            out = set()
+            for c_ in ast.walk(scope):
+                if isinstance(c_, ast.Call):
+                    d_ = prog.dotted(c_.func) or norm(c_.func)
+                    if d_ in ("open", "io.open", "tokenize.open") or (isinstance(c_.func, ast.Attribute) and c_.func.attr in ("open", "read_text")):
+                        enc = next((k.value for k in c_.keywords if k.arg == "encoding"), None)
+                        kind_ = "tokenize.open" if d_ == "tokenize.open" else "open"
+                        out.add(f"{kind_}(encoding={norm(enc).lower().replace('_', '-') if enc is not None else 'default'})")
+            return out
+        r_tr, r_pred = readers(loop), readers(pred.node)
+        if r_tr and r_pred:
+            res.decide(r_tr == r_pred, "R18.15", pred.loc(), pred.fq, f"{pred.node.name}() # reads the module the way trace_origin does",
+                       f"both: {sorted(r_tr)}" if r_tr == r_pred else
+                       f"trace_origin reads the module with {sorted(r_tr)}, {pred.node.name}() with {sorted(r_pred)}: a file one of them can decode and the other cannot is "
+                       "`readable` for the predicate while no name is ever traced to it - the star import is removed as unused")
 
 
 # ------------------------------------------------------------------------------------------------ R18.16
